@@ -72,6 +72,14 @@ def gen(ctx, rnd, quick):
             strict_refuses = bool(fl >> FB["STRICTENC"] & 1) and ht not in (1, 2, 3, 0x81, 0x82, 0x83)
             cases.append((S.spend_line(s.tx, s.txin, fl), {"kind": kind, "label": "odd-hashtype-refused" if strict_refuses else "valid",
                                                           "built_valid": s.valid and not strict_refuses and fl != 0, "flags": fl}))
+    # structure at its limits: a spending transaction without outputs, the spent input beyond the last output (SIGHASH_SINGLE)
+    for kind in S.KINDS:
+        for ht in (1, 2, 3, 0x81, 0x82, 0x83) + ((0,) if kind.startswith("p2tr") else ()):
+            for n_out in ((0, 1) if not quick or ht in (3, 0x83, 1) else (0,)):
+                try: s = S.build(rnd, kind, {"hashtype": ht, "n_out": n_out, "n_in": 1 if (n_out == 0 or kind.startswith("p2tr")) else 3, "idx": 0 if (n_out == 0 or kind.startswith("p2tr")) else 2})
+                except Exception as e:
+                    continue
+                cases.append((S.spend_line(s.tx, s.txin, R.STD), {"kind": kind, "label": "outputs=%d ht=%02x" % (n_out, ht), "built_valid": s.valid, "flags": R.STD}))
     # hand-built scripts: the rules around the scripts rather than inside them
     def add(name, spk, ss=b"", wit=(), flags=R.STD, finding=None, **kw):
         tx, ftx = S.custom(rnd, spk, ss, wit, **kw)
